@@ -436,7 +436,7 @@ def main(argv):
             run_plain(ck, model, st, plain, "exhaustive-3")
             n3 += 1
     n_exh = st.hist.get("graphs", 0) - n_corpus
-    n_rand = 200000 if thorough else 15000
+    n_rand = 200000 if thorough else 12000
     for k in range(n_rand):
         nb = ck.rng.choice([1, 2, 3, 3, 4, 4, 5, 6, 7, 8, 10, 12])
         ns = ck.rng.choice([1, 1, 2, 2, 3, 4, 5])
@@ -456,6 +456,9 @@ def main(argv):
     for i, rec in enumerate(small):
         combos = matrix if thorough else [(6, None), (9, None), (10, False), (8, True)]
         check_program(ck, model, st, ps, rec, combos, "exhaustive-small-%d" % i)
+    # several routines with the same name, exactly one of them offending (any position)
+    for rec, name in GG.same_name_family():
+        check_program(ck, model, st, ps, rec, matrix if thorough else [(6, None), (8, None), (9, None), (10, True)], name)
     # many conditionally stored variables: 2^k slot sets, the unstored path is the last one the real walk reaches
     fam = [(GG.many_conditional_stores(13, 0), "state-space-13-late"), (GG.many_conditional_stores(12, 11), "state-space-12-early"),
            (GG.many_conditional_stores(12, 0, first_unconditional=True), "state-space-12-clean")]
@@ -463,7 +466,7 @@ def main(argv):
         fam += [(GG.many_conditional_stores(14, 0), "state-space-14-late"), (GG.many_conditional_stores(13, 6), "state-space-13-middle")]
     for rec, name in fam:
         check_program(ck, model, st, ps, rec, [(6, None), (9, None), (8, True)], name)
-    n_random_prog = 12000 if thorough else 1500
+    n_random_prog = 12000 if thorough else 1300
     for i in range(n_random_prog):
         gen = GG.Gen(ck.rng, "small" if ck.rng.random() < 0.7 else "large")
         rec = gen.program()
